@@ -42,6 +42,7 @@ CONVS = {
     'tri': (Z | M1, P1),          # 1 ok, 0 error, -1 mismatch
     'tri-alt': (Z, P1 | M1),      # 1 ok, 0 error, -1 a distinct non-error outcome (zckdl: "no range support")
     'zerr': (Z, P1 | POS),        # 0 error, otherwise a count
+    'pos': (M1 | NEG | Z, P1 | POS),   # >= 1 ok; 0 backend failure; -1 verification failure
     'ptr': (Z, POS),
     'exit0': (TOP & ~Z, Z),       # process exit status
     'void': (0, TOP),
@@ -56,7 +57,7 @@ CONVENTIONS = {
     'read_data': 'neg', 'write_data': 'bool', 'seek_data': 'bool', 'tell_data': 'neg', 'chunks_from_temp': 'bool',
     # comp.c
     'comp_write': 'neg', 'zck_write': 'neg', 'zck_end_chunk': 'neg', 'comp_read': 'neg', 'zck_read': 'neg',
-    'zck_get_chunk_data': 'neg', 'zck_get_chunk_comp_data': 'neg', 'comp_end_dchunk': 'neg',
+    'zck_get_chunk_data': 'neg', 'zck_get_chunk_comp_data': 'neg', 'comp_end_dchunk': 'pos',
     'comp_init': 'bool', 'import_dict': 'bool',
     'zstd.c::compress': 'neg', 'nocomp.c::compress': 'neg',
     # hash.c
